@@ -31,6 +31,20 @@ strengthened = {
  "C18-5": "missed at first: trees were never deeper than 16 frames; gen.Deep (up to 48 nested containers, 40 nested inlines, 150 siblings) is one case in five",
  "C18-6": "missed at first: ChildCount and Child were always supplied together; views with only one of them added",
  "C20-5": "missed at first: literal text never looked like an entity; syntax-looking literal words (&amp; <b> *a* [x](y) 1. ...) added to the document model (C06 and C20)",
+ "C04-8": "missed at first: the inline parser was always given a matcher; the pipeline now also uses zero-value InlineParser and HTMLRenderer values, a nil reference map and blocks without inline parsing",
+ "C05-8": "missed at first: no ordered marker with a leading zero and 8/9; such markers added to G1/G2 and C05 now requires ListItemNumber to equal the decimal value of the marker's digits",
+ "C06-7": "missed at first: the serializer never began an item with a blank line; added as a spelling choice (marker alone on its line, content at marker width + 1)",
+ "C10-8": "missed at first: invalid UTF-8 never sat inside a destination; check render_sinks (hostile payloads in every sink) added to C10 and invalid bytes inside constructs added to G1",
+ "C11-7": "missed at first by C11 (caught by C06): C11's strings were single lines; metamorphic check after_multi_line added (delimiter runs after a two-line link, image, code span or reference resolve as after the one-line spelling)",
+ "C11-8": "missed at first: the alphabets had no non-ASCII symbol; € added to the extended alphabet (Sc; symbols are not punctuation in 0.30)",
+ "C12-7": "missed at first: labels never held a literal backslash before white space; bare backslash units added to the label alphabet",
+ "C13-8": "missed at first: streamed inputs were short; check stream_documents (20-70 KB, hundreds of root blocks, examined after the last read) added to all four tree properties",
+ "C14-8": "missed at first by C14 (caught by C10 and C17): the relation was only checked under the default renderer; it now also runs under two tag filters, IgnoreRaw and other soft-break behaviours",
+ "C15-8": "missed at first: leading zeros beyond the short alphabets; enumerated check counted_lines (1-12 digits with every number of leading zeros, marker runs of 1-12) added, and C06 boundary documents with leading zeros",
+ "C16-7": "missed at first: no definition on a tab-indented continuation line; fragments with every kind of indentation before a continuation definition added to G1/G2",
+ "C19-7": "missed at first: every goroutine parsed a private copy; inputs are now adjacent sub-slices of one shared buffer (with NUL-bearing documents in every batch) and the buffer is compared afterwards",
+ "C20-7": "missed at first: canonical documents only used '-' bullets; the marker characters the formatter copies through (bullet, ordered delimiter, emphasis character) are now free",
+ "C20-8": "missed at first: no code line with a fence run followed by white space; such lines added to the model's code content, which also exposed two genuine formatter defects (section 12)",
  "C19-4": "missed at first: batches had no long destination that needs percent-encoding; rare-path constructs added to every batch",
 }
 rows = []
